@@ -7,9 +7,14 @@ import vlib
 import _cesium as C
 
 
-def crash_enum(ctx, path, T, tag, conc=None, max_images=0, timeout=2400):
+FORCED = [{"persist": 2, "filecap": 17}, {"persist": 2, "filecap": 40}, {"persist": 1, "filecap": 17}, {"persist": 0, "filecap": 0}]
+
+
+def crash_enum(ctx, path, T, tag, conc=None, max_images=0, timeout=2400, forced=None):
     out = ctx.path("out_%s.ndjson" % tag)
     env = {"VERIF_IN": path, "VERIF_OUT": out, "VERIF_MAXT": 2 * T + 1, "VERIF_MAXIMAGES": max_images}
+    if forced:
+        env["VERIF_CONCS"] = json.dumps(forced)
     if conc is not None:
         env["VERIF_CONC"] = json.dumps(conc)
     rc, text, wall = ctx.go_test("cesium", ".", ["zz_verif_store_test.go", "zz_verif_crash_test.go"],
@@ -84,7 +89,12 @@ def run(ctx):
     runs = []
     runs.append(("bfs", dict(spec="GSpecBFS", T=2, depth=5, maxlen=2, maxid=3, writers=1, inv="Emit",
                              chansets='{{"I"}, {"I","D","V"}, {"D"}}', deletes=True), None, 1500 if not thorough else 12000))
-    runs.append(("sim", dict(spec="GSpecSim", T=4, depth=14, deletes=True), "num=%d" % (15 if not thorough else 150), None))
+    runs.append(("sim", dict(spec="GSpecSim", T=4, depth=14, deletes=True), "num=%d" % (8 if not thorough else 100), None))
+    # scenario plans, each history under four forced (index persistence, file cap) combinations: interval
+    # persistence with rollover is where some commits persist the index and some do not
+    for plan in (1, 2, 4, 5):
+        runs.append(("plan%d" % plan, dict(spec="GSpecSim", T=4, depth=14, deletes=True, plan=plan),
+                     "num=%d" % (3 if not thorough else 40), None))
     total_hist = total_images = torn = 0
     samples = []
     diverged = 0
@@ -104,7 +114,7 @@ def run(ctx):
         if n == 0:
             raise vlib.Inconclusive("no histories generated (%s)" % tag)
         samples += smp[:1]
-        summ, bad = crash_enum(ctx, hp, T, "crash_" + tag)
+        summ, bad = crash_enum(ctx, hp, T, "crash_" + tag, forced=FORCED if tag.startswith("plan") else None)
         total_hist += summ["histories"]
         total_images += summ["images"]
         torn += summ["torn_images"]
